@@ -1634,6 +1634,13 @@ module Z =
                  | _ -> false)
  end
 
+(** val z_lt_dec : z -> z -> bool **)
+
+let z_lt_dec x y =
+  match Z.compare x y with
+  | Lt -> true
+  | _ -> false
+
 (** val z_le_dec : z -> z -> bool **)
 
 let z_le_dec x y =
@@ -1853,6 +1860,12 @@ type ('a, 'c) elements = 'c -> 'a list
 let elements0 elements1 =
   elements1
 
+(** val not_dec : decision -> decision **)
+
+let not_dec = function
+| true -> false
+| false -> true
+
 (** val and_dec : decision -> decision -> decision **)
 
 let and_dec p_dec q_dec =
@@ -1862,6 +1875,11 @@ let and_dec p_dec q_dec =
 
 let or_dec p_dec q_dec =
   if p_dec then true else q_dec
+
+(** val impl_dec : decision -> decision -> decision **)
+
+let impl_dec p_dec q_dec =
+  if p_dec then q_dec else true
 
 (** val bool_eq_dec : (bool, bool) relDecision **)
 
@@ -1881,6 +1899,11 @@ let prod_eq_dec eqDecision0 eqDecision1 x y =
   let (a, b) = x in
   let (a0, b0) = y in
   if decide_rel eqDecision0 a a0 then decide_rel eqDecision1 b b0 else false
+
+(** val uncurry_dec : ('a1 -> 'a2 -> decision) -> ('a1 * 'a2) -> decision **)
+
+let uncurry_dec p_dec = function
+| (x, y) -> p_dec x y
 
 (** val bool_decide : decision -> bool **)
 
@@ -1999,6 +2022,11 @@ module Coq_Z =
 
   let le_dec =
     z_le_dec
+
+  (** val lt_dec : (z, z) relDecision **)
+
+  let lt_dec =
+    z_lt_dec
  end
 
 (** val list_filter : ('a1 -> decision) -> 'a1 list -> 'a1 list **)
@@ -2117,6 +2145,17 @@ let rec noDup_dec eqDecision0 = function
   if decide_rel (elem_of_list_dec eqDecision0) x l0
   then false
   else noDup_dec eqDecision0 l0
+
+(** val forall_Exists_dec : ('a1 -> bool) -> 'a1 list -> bool **)
+
+let rec forall_Exists_dec dec = function
+| [] -> true
+| x :: l0 -> if dec x then forall_Exists_dec dec l0 else false
+
+(** val forall_dec : ('a1 -> decision) -> 'a1 list -> decision **)
+
+let forall_dec =
+  forall_Exists_dec
 
 type 'a countable = { encode : ('a -> positive);
                       decode : (positive -> 'a option) }
@@ -2313,6 +2352,15 @@ let map_union h =
 let map_difference h =
   difference_with (map_difference_with h) (fun _ _ -> None)
 
+(** val map_Forall_dec :
+    'a2 fMap -> (__ -> ('a1, __, 'a2) lookup) -> (__ -> 'a2 empty) -> (__ ->
+    ('a1, __, 'a2) partialAlter) -> 'a2 oMap -> 'a2 merge -> (__ -> ('a1, __,
+    'a2) finMapToList) -> ('a1, 'a1) relDecision -> ('a1 -> 'a3 -> decision)
+    -> 'a2 -> decision **)
+
+let map_Forall_dec _ _ _ _ _ _ h5 _ h7 m =
+  decide (forall_dec (uncurry_dec (Obj.magic h7)) (map_to_list (h5 __) m))
+
 type 'munit mapset' =
   'munit
   (* singleton inductive, whose constructor was Mapset *)
@@ -2431,6 +2479,14 @@ let rec ppartial_alter_raw f i = function
    | XO i0 -> pNode' o (ppartial_alter_raw f i0 l) r
    | XH -> pNode' (f o) l r)
 
+(** val pfmap_raw : ('a1 -> 'a2) -> 'a1 pmap_raw -> 'a2 pmap_raw **)
+
+let rec pfmap_raw f = function
+| PLeaf -> PLeaf
+| PNode (o, l, r) ->
+  PNode ((fmap (Obj.magic (fun _ _ -> option_fmap)) f (Obj.magic o)),
+    (pfmap_raw f l), (pfmap_raw f r))
+
 (** val pto_list_raw :
     positive -> 'a1 pmap_raw -> (positive * 'a1) list -> (positive * 'a1) list **)
 
@@ -2492,10 +2548,20 @@ let plookup i m =
 let ppartial_alter f i m =
   partial_alter ppartial_alter_raw f i m
 
+(** val pfmap : (__ -> __) -> __ pmap -> __ pmap **)
+
+let pfmap f m =
+  fmap (fun _ _ -> pfmap_raw) f m
+
 (** val pto_list : (positive, 'a1, 'a1 pmap) finMapToList **)
 
 let pto_list m =
   pto_list_raw XH m []
+
+(** val pomap : (__ -> __ option) -> __ pmap -> __ pmap **)
+
+let pomap f m =
+  omap (fun _ _ -> pomap_raw) f m
 
 (** val pmerge :
     (__ option -> __ option -> __ option) -> __ pmap -> __ pmap -> __ pmap **)
@@ -2541,6 +2607,20 @@ let gmap_empty _ _ =
 
 let gmap_partial_alter _ h f i pat =
   partial_alter ppartial_alter f (h.encode i) pat
+
+(** val gmap_fmap :
+    ('a1, 'a1) relDecision -> 'a1 countable -> (__ -> __) -> ('a1, __) gmap
+    -> ('a1, __) gmap **)
+
+let gmap_fmap _ _ f pat =
+  fmap (fun _ _ -> pfmap) f pat
+
+(** val gmap_omap :
+    ('a1, 'a1) relDecision -> 'a1 countable -> (__ -> __ option) -> ('a1, __)
+    gmap -> ('a1, __) gmap **)
+
+let gmap_omap _ _ f pat =
+  omap (fun _ _ -> pomap) f pat
 
 (** val gmap_merge :
     ('a1, 'a1) relDecision -> 'a1 countable -> (__ option -> __ option -> __
@@ -9915,6 +9995,103 @@ let init g =
                 (map_insert (gmap_partial_alter Coq_Z.eq_dec z_countable))
                 (gmap_empty Coq_Z.eq_dec z_countable)
                 (map (fun i -> (i.inf_ts, i)) g.g_inflations)) s1)))))
+
+(** val bIG : z **)
+
+let bIG =
+  Z.pow (Zpos (XO XH)) (Zpos (XO (XI (XO (XI (XI (XI (XI XH))))))))
+
+(** val msg_sender : msg -> taddr **)
+
+let msg_sender = function
+| MProvRegister (f, _, _, _, _, _) -> f
+| MProvUpdate (f, _, _, _, _, _, _) -> f
+| MNodeRegister (f, _, _, _, _) -> f
+| MNodeUpdateDetails (f, _, _, _, _) -> f
+| MNodeUpdateStatus (f, _) -> f
+| MNodeSubscribe (f, _, _, _, _) -> f
+| MPlanCreate (f, _, _, _) -> f
+| MPlanUpdateStatus (f, _, _) -> f
+| MPlanLink (f, _, _) -> f
+| MPlanUnlink (f, _, _) -> f
+| MPlanSubscribe (f, _, _) -> f
+| MSubCancel (f, _) -> f
+| MSubAllocate (f, _, _, _) -> f
+| MSessStart (f, _, _) -> f
+| MSessUpdate (f, _, _, _, _, _, _) -> f
+| MSessEnd (f, _, _) -> f
+| MSwap (f, _, _, _) -> f
+
+(** val bal_small_b : state -> addr -> bool **)
+
+let bal_small_b s a =
+  bool_decide
+    (map_Forall_dec (fun _ _ -> gmap_fmap n_eq_dec n_countable) (fun _ ->
+      gmap_lookup n_eq_dec n_countable) (fun _ ->
+      gmap_empty n_eq_dec n_countable) (fun _ ->
+      gmap_partial_alter n_eq_dec n_countable) (fun _ _ ->
+      gmap_omap n_eq_dec n_countable) (fun _ _ _ ->
+      gmap_merge n_eq_dec n_countable) (fun _ ->
+      gmap_to_list n_eq_dec n_countable) n_eq_dec (fun _ x ->
+      decide_rel Coq_Z.lt_dec x bIG)
+      (from_option (Obj.magic id) (empty0 (gmap_empty n_eq_dec n_countable))
+        (lookup0
+          (gmap_lookup (list_eq_dec0 n_eq_dec)
+            (list_countable n_eq_dec n_countable)) a s.bank)))
+
+(** val par_ok_b : params -> bool **)
+
+let par_ok_b p =
+  (&&)
+    ((&&)
+      ((&&)
+        ((&&)
+          ((&&)
+            ((&&) ((&&) (Z.ltb Z0 p.p_sub_delay) (Z.ltb Z0 p.p_sess_delay))
+              (Z.leb p.p_sess_delay p.p_sub_delay))
+            (Z.ltb Z0 p.p_node_active)) (Z.leb Z0 p.p_node_share))
+        (Z.leb p.p_node_share p18)) (Z.leb Z0 p.p_prov_share))
+    (Z.leb p.p_prov_share p18)
+
+(** val wf_op_c03_b : state -> op -> bool **)
+
+let wf_op_c03_b s = function
+| OBegin t0 -> Z.ltb s.now t0
+| OTx m ->
+  (&&)
+    (bool_decide
+      (not_dec
+        (decide_rel (elem_of_list_dec (list_eq_dec0 n_eq_dec))
+          (msg_sender m).ta_bytes s.cfg.c_blocked)))
+    (bal_small_b s (msg_sender m).ta_bytes)
+| OGov cs ->
+  let s' = fold_left apply_pchange cs s in
+  (&&) (par_ok_b s'.pars)
+    (bool_decide
+      (map_Forall_dec
+        (Obj.magic (fun _ _ -> gmap_fmap Coq_Z.eq_dec z_countable))
+        (Obj.magic (fun _ -> gmap_lookup Coq_Z.eq_dec z_countable)) (fun _ ->
+        gmap_empty Coq_Z.eq_dec z_countable)
+        (Obj.magic (fun _ -> gmap_partial_alter Coq_Z.eq_dec z_countable))
+        (Obj.magic (fun _ _ -> gmap_omap Coq_Z.eq_dec z_countable))
+        (Obj.magic (fun _ _ _ -> gmap_merge Coq_Z.eq_dec z_countable))
+        (Obj.magic (fun _ -> gmap_to_list Coq_Z.eq_dec z_countable))
+        Coq_Z.eq_dec (fun _ x ->
+        impl_dec (decide_rel status_eq_dec x.ss_status SPending)
+          (decide_rel Coq_Z.le_dec x.ss_inactive_at
+            (Z.add s.now s'.pars.p_sub_delay))) s.sessions))
+| OEnd -> true
+
+(** val wf_genesis_b : genesis -> bool **)
+
+let wf_genesis_b g =
+  (&&)
+    ((&&) (par_ok_b g.g_params)
+      (forallb (fun it ->
+        mint_params_valid it.inf_max it.inf_min it.inf_rate) g.g_inflations))
+    (bool_decide
+      (decide_rel (elem_of_list_dec (list_eq_dec0 n_eq_dec))
+        g.g_cfg.c_deposit g.g_cfg.c_blocked))
 
 (** val d_bank : state -> (addr * coin list) list **)
 
